@@ -17,7 +17,7 @@ def variants(prog, adt):
 
 def run(ctx, rep):
     prog = ctx.program("default")
-    rep.configs.append("default")
+    rep.configs.append(getattr(ctx, "alias", "default"))
     check_lines(prog, rep)
     check_baseline(prog, rep)
     check_line_height(prog, rep)
